@@ -8,6 +8,7 @@ mod net;
 mod wire;
 mod text;
 mod netprops;
+mod c02;
 mod c08;
 mod c13;
 mod c14;
@@ -38,6 +39,7 @@ fn main() {
         }
     }
     match argv[1].as_str() {
+        "c02" => c02::run(&a),
         "c08" => c08::run(&a),
         "c13" => c13::run(&a),
         "c14" => c14::run_c14(&a),
